@@ -155,6 +155,7 @@ class Operand:
         self.kind, self.parts, self.alias, self.jtype, self.on, self.target = kind, parts, alias, jtype, on, target
         self.inner = inner
         self.integ = ''
+        self.tkey = ''
 
     def names(self):
         """lower-cased qualifier tuples that denote this operand (specification reading)"""
@@ -182,6 +183,7 @@ class Operand:
         t.append('-' if self.target is None else enc(self.target))
         t.append(str(self.inner))
         t.append(enc(self.integ))
+        t.append(enc(self.tkey))
         return ' '.join(t)
 
 
@@ -234,6 +236,9 @@ def operands_of(query, cat):
                 dbs = databases_of(cat)
                 o.integ = (node.parts[0] if len(node.parts) > 1 and node.parts[0] in dbs
                            else (cat.get('default_namespace') or '')).lower()
+                # `item.table` (the integration popped when it is a known database) as Identifier equality sees it
+                tp = list(node.parts[1:]) if len(node.parts) > 0 and node.parts[0] in dbs else list(node.parts)
+                o.tkey = '.'.join(tp) + '|' + ('.'.join(alias) if alias is not None else '')
                 ops.append(o)
         elif isinstance(node, ast.Select):
             ops.append(Operand('sub', ['t_sub'], alias, jtype, on, None, inner_steps(node)))
@@ -248,9 +253,48 @@ def using_line(using):
     return ' '.join(['G', str(len(using))] + [enc(k) + ' ' + enc(val_str(v)) for k, v in using.items()])
 
 
-def model_line(ops, where, using):
+class SkipShape(Exception):
+    pass
+
+
+def query_info(q):
+    """what the LIMIT logic and the final QueryStep look at: select list (aliases dropped), DISTINCT, GROUP BY / HAVING
+    presence, LIMIT, OFFSET, ORDER BY fields; `others` = every expression _check_identifiers visits besides WHERE / ON"""
+    from mindsdb_sql.parser import ast
+    targets = [abs_e(t) for t in q.targets]
+    for t in targets + [abs_e(x) for x in (q.group_by or [])] + ([abs_e(q.having)] if q.having is not None else []):
+        if any(n[0] == 'S' for n, _ in sub_nodes(t)):
+            raise SkipShape('select-in-targets')
+    is_star = len(q.targets) == 1 and isinstance(q.targets[0], ast.Star)
+
+    def cval(c):
+        if c is None:
+            return None
+        return val_str(c.value) if isinstance(c, ast.Constant) else 'expr:' + str(c)
+    order = None
+    if q.order_by is not None:
+        order = [(abs_e(o.field), '%s/%s' % (o.direction, o.nulls)) for o in q.order_by]
+    others = list(targets) + [abs_e(x) for x in (q.group_by or [])] + \
+        ([abs_e(q.having)] if q.having is not None else []) + [f for f, _ in (order or [])]
+    return dict(targets=targets, is_star=is_star, distinct=bool(q.distinct), group_by=q.group_by is not None,
+                having=q.having is not None, limit=cval(q.limit), offset=cval(q.offset), order=order, others=others)
+
+
+def info_line(info):
+    t = [str(len(info['targets']))] + [show_e(x) for x in info['targets']]
+    t += ['1' if info[k] else '0' for k in ('is_star', 'distinct', 'group_by', 'having')]
+    t += ['-' if info[k] is None else enc(info[k]) for k in ('limit', 'offset')]
+    if info['order'] is None:
+        t.append('-')
+    else:
+        t += ['R', str(len(info['order']))] + ['%s %s' % (show_e(f), enc(d)) for f, d in info['order']]
+    t += [str(len(info['others']))] + [show_e(x) for x in info['others']]
+    return ' '.join(t)
+
+
+def model_line(ops, where, using, info):
     return ' '.join([str(len(ops))] + [o.line() for o in ops] +
-                    ['-' if where is None else show_e(where), using_line(using)])
+                    ['-' if where is None else show_e(where), using_line(using), info_line(info)])
 
 
 # ----------------------------------------------------------------------------- real plan -> canonical
@@ -264,6 +308,46 @@ def dict_str(d, f):
 
 def opt_e(n):
     return '-' if n is None else show_e(abs_e(n))
+
+
+def lim_val(c):
+    from mindsdb_sql.parser import ast
+    if c is None:
+        return None
+    return val_str(c.value) if isinstance(c, ast.Constant) else 'expr:' + str(c)
+
+
+AGG_NAMES = ('count', 'sum', 'min', 'max', 'avg', 'std')
+
+
+def deep_aggregates(q):
+    """independent of the planner: aggregate calls ANYWHERE in the select list (generic walk over every attribute)"""
+    from mindsdb_sql.parser import ast
+    found = []
+    seen = set()
+
+    def walk(x, depth=0):
+        if depth > 40 or id(x) in seen:
+            return
+        if isinstance(x, (list, tuple)):
+            for y in x:
+                walk(y, depth + 1)
+            return
+        if isinstance(x, dict):
+            for y in x.values():
+                walk(y, depth + 1)
+            return
+        if not isinstance(x, ast.ASTNode):
+            return
+        seen.add(id(x))
+        if isinstance(x, ast.Select):
+            return              # an inner query aggregates its own rows
+        if isinstance(x, ast.Function) and str(x.op).lower() in AGG_NAMES:
+            found.append(str(x.op).lower())
+        for v in vars(x).values():
+            walk(v, depth + 1)
+    walk(list(q.targets))
+    return found
 
 
 class PlanView:
@@ -310,7 +394,12 @@ class PlanView:
                 return dict(kind='inner', t=sub_inputs[idx])
             if isinstance(s, S.FetchDataframeStep):
                 t = Keys('tab').get(ident_key(s.query.from_table), -1)
-                return dict(kind='fetch', t=t, w=abs_e(s.query.where) if s.query.where is not None else None, step=s)
+                qq = s.query
+                order = None
+                if qq.order_by is not None:
+                    order = [(str(o.field.parts[-1]), '%s/%s' % (o.direction, o.nulls)) for o in qq.order_by]
+                return dict(kind='fetch', t=t, w=abs_e(qq.where) if qq.where is not None else None, step=s,
+                            limit=lim_val(qq.limit), offset=lim_val(qq.offset), order=order)
             if isinstance(s, S.SubSelectStep):
                 if s.query.distinct:
                     return dict(kind='dist', inp=str(s.dataframe.step_num), col=s.query.targets[0].parts[-1])
@@ -330,7 +419,8 @@ class PlanView:
                 return dict(kind='mr', values=str(s.values.step_num), part=val_str(s.partition),
                             subs=[conv(x, None) for x in s.step])
             if isinstance(s, S.QueryStep):
-                return dict(kind='query', inp=str(s.from_table.step_num), w=abs_e(s.query.where) if s.query.where is not None else None)
+                return dict(kind='query', inp=str(s.from_table.step_num), w=abs_e(s.query.where) if s.query.where is not None else None,
+                            limit=lim_val(s.query.limit), offset=lim_val(s.query.offset))
             return dict(kind='other', name=type(s).__name__)
 
         for i, s in enumerate(plan.steps):
@@ -363,8 +453,10 @@ class PlanView:
         oe = lambda e: '-' if e is None else show_e(e)
         if k == 'nested':
             return 'nested(%d)' % it['k']
+        so = lambda v: '-' if v is None else enc(v)
         if k == 'fetch':
-            return 'fetch(t=%d;w=%s)' % (it['t'], oe(it['w']))
+            order = '-' if it['order'] is None else '[' + ','.join('%s:%s' % (enc(c), enc(d)) for c, d in it['order']) + ']'
+            return 'fetch(t=%d;w=%s;limit=%s;offset=%s;order=%s)' % (it['t'], oe(it['w']), so(it['limit']), so(it['offset']), order)
         if k == 'inner':
             return 'inner(t=%d)' % it.get('t', -1)
         if k == 'sub':
@@ -379,7 +471,7 @@ class PlanView:
         if k == 'mr':
             return 'mr(values=%s;part=%s;[%s])' % (it['values'], enc(it['part']), ' ; '.join(self.show_item(x) for x in it['subs']))
         if k == 'query':
-            return 'query(in=%s;w=%s)' % (it['inp'], oe(it['w']))
+            return 'query(in=%s;w=%s;limit=%s;offset=%s)' % (it['inp'], oe(it['w']), so(it['limit']), so(it['offset']))
         return 'other:%s' % it['name']
 
     def canon(self):
@@ -450,7 +542,14 @@ def run_real(sql, cat):
     except InnerPlanError as e:
         return dict(skip='inner-plan:' + str(e))
     using = dict(q.using) if q.using is not None else None
-    res = dict(ops=ops, where=where, using=using, line=model_line(ops, where, using), sql=sql)
+    try:
+        info = query_info(q)
+    except SkipShape as e:
+        return dict(skip='shape:' + str(e))
+    except InnerPlanError as e:
+        return dict(skip='inner-plan:' + str(e))
+    res = dict(ops=ops, where=where, using=using, info=info, line=model_line(ops, where, using, info), sql=sql,
+               aggregates=deep_aggregates(q))
     if not any(o.kind == 'mod' for o in ops):
         return dict(skip='no-model')
     n_nested = count_sel(where) if where is not None else 0
@@ -651,6 +750,63 @@ class Gen:
         ks = [r.choice(keys) for _ in range(n)]
         return ' using ' + ', '.join('%s=%s' % (k, r.choice(['1', '2', "'v'", '10'])) for k in ks)
 
+    def select_list(self, ops):
+        """`*`, plain columns, aggregates as targets, aggregates NESTED in expressions / functions / CAST / CASE,
+        non-aggregate functions"""
+        r = self.rng
+        x = r.random()
+        if x < 0.45:
+            return '*'
+        c = lambda: self.qcol(r.choice(ops))
+        plain = lambda: r.choice(['%s' % c(), '%s as c1' % c(), 'lower(%s)' % c(), '%s + 1 as p' % c(), '1 + abs(%s)' % c(),
+                                  "cast(%s as int)" % c(), 'case when %s > 1 then 1 else 0 end' % c()])
+        agg = lambda: r.choice(['count(*)', 'sum(%s)' % c(), 'max(%s) as mx' % c(), 'min(%s)' % c(), 'avg(%s) a' % c(),
+                                'count(%s)' % c(), 'COUNT(*) as cnt', 'Std(%s)' % c()])
+        nested = lambda: r.choice(['sum(%s) / count(*)' % c(), 'round(avg(%s), 2) as mean' % c(),
+                                   'max(%s) - min(%s) as spread' % (c(), c()), 'cast(sum(%s) as int)' % c(),
+                                   'case when count(*) > 1 then 1 else 0 end', 'coalesce(max(%s), 0) as m' % c(),
+                                   '1 + count(*)', 'abs(min(%s)) * 2' % c(), 'lower(cast(max(%s) as varchar))' % c(),
+                                   '- sum(%s)' % c()])
+        if x < 0.65:
+            items = [plain() for _ in range(r.choice([1, 2, 3]))]
+        elif x < 0.78:
+            items = [agg() for _ in range(r.choice([1, 2]))] + ([plain()] if r.random() < 0.3 else [])
+        else:
+            items = [nested() for _ in range(r.choice([1, 1, 2]))] + ([plain()] if r.random() < 0.3 else [])
+        r.shuffle(items)
+        return ('distinct ' if r.random() < 0.1 else '') + ', '.join(items)
+
+    def tail(self, ops):
+        """GROUP BY / HAVING / ORDER BY / LIMIT / OFFSET"""
+        r = self.rng
+        t = ''
+        if r.random() < 0.12:
+            t += ' group by %s' % self.qcol(r.choice(ops))
+            if r.random() < 0.4:
+                t += ' having count(*) > 1'
+        elif r.random() < 0.03:
+            t += ' having max(%s) > 1' % self.qcol(r.choice(ops))
+        if r.random() < 0.3:
+            first = ops[0]
+            fields = []
+            for _ in range(r.choice([1, 1, 2])):
+                y = r.random()
+                if y < 0.55:
+                    f = self.qcol(first)
+                elif y < 0.8:
+                    f = self.qcol(r.choice(ops))
+                elif y < 0.9:
+                    f = r.choice(['1', 'tc1', 'lower(%s)' % self.qcol(first)])
+                else:
+                    f = self.qcol(first) + ' + 1'
+                fields.append(f + r.choice(['', '', ' desc', ' asc', ' nulls last', ' desc nulls first']))
+            t += ' order by ' + ', '.join(fields)
+        if r.random() < 0.45:
+            t += ' limit %s' % r.choice(['1', '3', '10', '100'])
+            if r.random() < 0.3:
+                t += ' offset %s' % r.choice(['1', '2', '5'])
+        return t
+
     def query(self):
         r = self.rng
         nt = r.choice([1, 1, 1, 2, 2, 3])
@@ -692,7 +848,11 @@ class Gen:
             else:
                 w = self.cond(ops, r.choice([2, 3]), 0.3, 0.25)           # nested mix
             sql += ' where ' + w
-        sql += self.using(ops)
+        using = self.using(ops)
+        if r.random() < 0.6:        # shapes of the select list and of the tail (LIMIT pushdown decision)
+            sql = 'select ' + self.select_list(ops) + sql[len('select *'):]
+            sql += self.tail(ops)
+        sql += using
         return sql
 
 
@@ -715,6 +875,17 @@ SEEDS = [
     "select * from int1.t1 t join mindsdb.pred.3 m where m.mc1 = (select max(x) from int2.t9) and t.tc1 in (select x from int2.t9)",
     "select * from (select * from int1.t1 a join int2.t2 b on a.id = b.id where a.q = 1) s join mindsdb.pred m where s.tc1 = 1 and m.mc1 = 2 using partition_size=3",
     "select * from int1.t1 t join (select * from int1.t1 join mindsdb.pred) s on t.id = s.id join proj.pred2 m where t.tc1 in (select a.x from int1.t1 a join int2.t2 b on a.id = b.id) and m.mc1 = (select max(z) from int2.t8)",
+    "select t.tc1, m.mc1 from int1.t1 t join mindsdb.pred m on m.mc2 = t.tc2 where m.mc1 = 1 limit 3",
+    "select t.tc1, m.mc1 from int1.t1 t join mindsdb.pred m where m.mc1 = 1 and t.tc1 > 2 order by t.tc2 desc, t.id limit 3 offset 2",
+    "select * from int1.t1 t join mindsdb.pred m where m.mc1 > 1 order by m.mc2 limit 3",
+    "select sum(m.mc1) from int1.t1 t join mindsdb.pred m where m.mc2 = 1 limit 3",
+    "select sum(m.mc1) / count(*), round(avg(m.mc2), 2) as mean from int1.t1 t join mindsdb.pred m on m.mc2 = t.tc2 where m.mc1 = 1 limit 3",
+    "select cast(max(m.mc1) - min(m.mc1) as int) spread from int1.t1 t join mindsdb.pred m order by t.tc1 limit 5 offset 1",
+    "select case when count(*) > 1 then 1 else 0 end from int1.t1 t left join int2.t2 s on t.id = s.id join mindsdb.pred m limit 2",
+    "select distinct t.tc1 from int1.t1 t join mindsdb.pred m limit 3",
+    "select t.tc1, avg(m.mc1) from int1.t1 t join mindsdb.pred m group by t.tc1 having count(*) > 1 order by t.tc1 limit 3",
+    "select * from int1.t1 t left join int2.t2 s on t.id = s.id join mindsdb.pred m where t.tc1 = 1 limit 4 offset 1",
+    "select * from (select * from int1.t1) s join int2.t2 t join mindsdb.pred m order by t.tc1 limit 4",
     "select * from int1.T3 as t0 right join proj.pred2 as m1 where t0.TC3 is null and t0.tc1 = 1 and t0.tc2 is not null",
     "select * from int1.t1 t left join int2.t2 s on t.id = s.id full join (select * from int2.tab4) z join mindsdb.pred m where t.tc1 is null and s.tc1 is null and z.tc1 is null and s.tc2 is not null",
     "select * from int1.t1 t join int2.t2 s on t.id = s.id join mindsdb.pred m where t.tc1 between 1 and s.tc2 and s.tc1 between t.tc2 and 5",
@@ -902,6 +1073,29 @@ def oracle(res):
         got = covers(a['inp'])
         if got != expect:
             fail('apply-input', 'apply step of operand %d is fed by operands %s, expected %s' % (k, sorted(map(str, got)), sorted(expect)))
+
+    # ---- clause 1b: which rows the model is applied to: the data feeding an apply step is cut by the query's
+    # LIMIT / OFFSET (ordered by its ORDER BY) only if LIMIT counts rows of that data, i.e. in a plain row query
+    info = res['info']
+    not_plain = []
+    if info['having']:
+        not_plain.append('having')
+    if info['group_by']:
+        not_plain.append('group-by')
+    if info['distinct']:
+        not_plain.append('distinct')
+    if res['aggregates']:
+        nested = not any(t[0] == 'F' and t[1].lower() in AGG_NAMES for t in info['targets'])
+        not_plain.append('aggregate-nested' if nested else 'aggregate')
+    if not_plain:
+        fetch_by_t = {it['t']: it for it in items if it['kind'] == 'fetch'}
+        for a in applies:
+            for t in sorted(x for x in covers(a['inp']) if isinstance(x, int)):
+                ft = fetch_by_t.get(t)
+                if ft is not None and (ft['limit'] is not None or ft['offset'] is not None):
+                    fail('limit-below-model:' + '+'.join(not_plain),
+                         'the fetch of operand %d, which feeds the model of operand %d, carries LIMIT %s OFFSET %s although the '
+                         'query is not a plain row query (%s)' % (t, a['t'], ft['limit'], ft['offset'], ', '.join(not_plain)))
 
     # ---- clause 2: model-column = constant conditions
     outer = [it for it in view.items if it['kind'] == 'query']
